@@ -86,6 +86,13 @@ def func(draw, idx, lang, kind=None):
         f.update(T=draw(st.sampled_from(["int", "long", "float", "double"])),
                  ranks=draw(st.sampled_from([[0, 1], [1, 0], [0, 1, 2], [1, 2], [0, 2]])),
                  ret=draw(st.sampled_from([None, "int", "double"])) if kind == "sarr" else None)
+        if kind == "sarr":
+            # a variant may change the rank of one argument and the type of another at once
+            FT = draw(st.sampled_from([None, "double", "long"]))
+            f["factor"] = FT
+            f["ftypes"] = [draw(st.sampled_from(REALS if FT == "double" else ["int", "long"])) for _ in f["ranks"]] if FT else None
+            if FT and FT not in f["ftypes"]:
+                f["ftypes"][0] = FT
     elif kind == "arank":
         rmin = draw(st.sampled_from([0, 0, 1]))
         f.update(T=draw(st.sampled_from(["int", "long", "float", "double"])), rmin=rmin,
@@ -148,6 +155,8 @@ def case(draw, lang=None, kind=None):
                 elif f["kind"] in ("sarr", "fill", "arank"):
                     c["shape"] = shape_of(v, draw)
                     c["vals"] = [draw(value(f["T"])) for _ in range(nelem(c["shape"]))]
+                    if f.get("factor"):
+                        c["fval"] = draw(value(narrower([f["ftypes"][vi], f["factor"]])))
                     if f["kind"] == "arank" and f["two"]:
                         c["vals2"] = [draw(value(f["T"])) for _ in range(nelem(c["shape"]))]
                 else:
@@ -173,8 +182,11 @@ def yaml_text(cs, options=None):
             gen = [{"decl": "(%s)" % ", ".join("%s a%d" % (t, i) for i, t in zip(f["vary"], v))} for _l, _s, v in variants_of(f)]
         elif f["kind"] in ("sarr", "fill"):
             q = "const " if f["kind"] == "sarr" else ""
-            d["decl"] = "%s %s(%s%s *values, int nvalues)" % (rt, f["name"], q, f["T"])
-            gen = [{"decl": "(%s%s *values%s)" % (q, f["T"], "+rank(%d)" % r if r else "")} for _l, _s, r in variants_of(f)]
+            fa = ", %s factor" % f["factor"] if f.get("factor") else ""
+            d["decl"] = "%s %s(%s%s *values, int nvalues%s)" % (rt, f["name"], q, f["T"], fa)
+            gen = [{"decl": "(%s%s *values%s%s)" % (q, f["T"], "+rank(%d)" % r if r else "",
+                                                   ", %s factor" % f["ftypes"][k] if f.get("factor") else "")}
+                   for k, (_l, _s, r) in enumerate(variants_of(f))]
         elif f["kind"] == "arank":
             second = ", const %s *other+dimension(..)" % f["T"] if f["two"] else ""
             d["decl"] = "%s %s(const %s *values+dimension(..)%s, int nvalues)" % (rt, f["name"], f["T"], second)
@@ -215,8 +227,10 @@ def subject(cs):
             sig = "%s %s(%s)" % (rt, f["name"], ", ".join("%s a%d" % (t, i) for i, t in enumerate(f["base"])))
             body = "".join("    %s\n" % c_show(t, "a%d" % i) for i, t in enumerate(f["base"]))
         elif f["kind"] == "sarr":
-            sig = "%s %s(const %s *values, int nvalues)" % (rt, f["name"], f["T"])
+            sig = "%s %s(const %s *values, int nvalues%s)" % (rt, f["name"], f["T"], ", %s factor" % f["factor"] if f.get("factor") else "")
             body = '    printf("N %%d\\n", nvalues);\n    for (int i = 0; i < nvalues; i++) { %s }\n' % c_show(f["T"], "values[i]")
+            if f.get("factor"):
+                body += "    %s\n" % c_show(f["factor"], "factor")
         elif f["kind"] == "fill":
             sig = "void %s(%s *values, int nvalues)" % (f["name"], f["T"])
             body = ('    printf("N %%d\\n", nvalues);\n    for (int i = 0; i < nvalues; i++) { %s values[i] = (%s)(vf_rv + i); }\n'
@@ -292,6 +306,8 @@ def f_driver(cs):
                 pre.append("    oth = %s" % (f_array(f["T"], c["vals2"], shape) if shape else f_lit(f["T"], c["vals2"][0])))
                 args.append("oth")
             args.append("%d_C_INT" % nelem(shape))
+            if f.get("factor"):
+                args.append(f_lit(f["ftypes"][c["v"]], c["fval"]))
             if f["kind"] == "fill":
                 if shape:
                     decl.append("    integer :: i")
@@ -349,6 +365,8 @@ def model(cs):
         elif f["kind"] in ("sarr", "arank"):
             lines.append("N %d" % nelem(c["shape"]))
             lines += ["A " + _ctext(f["T"], x) for x in c["vals"]]
+            if f.get("factor"):
+                lines.append("A " + _ctext(f["factor"], c["fval"]))
             if f["kind"] == "arank" and f["two"]:
                 lines += ["A " + _ctext(f["T"], x) for x in c["vals2"]]
         elif f["kind"] == "fill":
